@@ -338,6 +338,8 @@ def rules(ctx):
                     (letter == 'l' and cty == 'long') or (letter == 'd' and cty == 'double')
                 # python side kind: O <- list-typed name, i <- int-valued expression
                 at = src(a)
+                if letter != 'O':
+                    at = src(expand_names(fn.node, a))      # a scalar argument may have been given a name
                 if letter == 'O':
                     okp = isinstance(a, ast.Name)
                 else:
